@@ -1,4 +1,5 @@
 import OrxPar.Props.C03
+import OrxPar.Props.AllSchedules
 open OrxPar
 #print axioms C03_reduce
 #print axioms C03_none_iff
@@ -10,3 +11,4 @@ open OrxPar
 #print axioms C03_min_by
 #print axioms C03_max_by_key
 #print axioms C03_select_seq
+#print axioms C03_reduce_all_schedules
